@@ -42,6 +42,21 @@ namespace sqf::parser::sqf::util
     }
 }
 
+namespace sqf::parser::sqf::util
+{
+    // A number literal that str prints without a sign: NUMBER, HEXNUMBER, or one of those behind
+    // folded `+` signs. A sign in front of it is folded into the pushed value, so that the printed
+    // form (`-16`, `5`) compiles back to the same instructions.
+    static bool is_unsigned_number(const ::sqf::parser::sqf::bison::astnode& node)
+    {
+        if (node.kind == ::sqf::parser::sqf::bison::astkind::NUMBER || node.kind == ::sqf::parser::sqf::bison::astkind::HEXNUMBER) { return true; }
+        return node.kind == ::sqf::parser::sqf::bison::astkind::EXPU
+            && node.token.contents == "+"
+            && node.children.size() == 1
+            && is_unsigned_number(node.children[0]);
+    }
+}
+
 void ::sqf::parser::sqf::parser::to_assembly(std::string_view contents, const ::sqf::parser::sqf::bison::astnode& node, std::vector<::sqf::runtime::instruction::sptr>& set)
 {
 
@@ -71,7 +86,7 @@ void ::sqf::parser::sqf::parser::to_assembly(std::string_view contents, const ::
     {
         auto s = std::string(node.token.contents);
         to_assembly(contents, node.children[0], set);
-        if (node.children[0].kind == bison::astkind::NUMBER && (s == "+" || s == "-"))
+        if (util::is_unsigned_number(node.children[0]) && (s == "+" || s == "-"))
         {
             if (s == "-")
             {
